@@ -14,6 +14,16 @@ CHECKS = {
    text="Proof: callback_accepts_iff characterises acceptance exactly; accepted_create_sound / accepted_update_sound (+ *_signed_by_* under injective thumbprints) give the authorisation predicate of the property; rejected_inert and resolvable_only_if_accepted (induction over all histories) show a rejected pair never becomes resolvable nor changes authorised keys; controller_chain_bounded / controller_cycle_refused / deactivated_controller_rejected / removed_key_rejected; validator_rules_sound_complete + each_necessary. The literal validator statement (validator_rules_Stmt) is proved FALSE of the code by witness for verification methods embedded in relationships (open known finding C09:accepted-embedded-method-violating-nuts-rules, replayed on the real code). Tie: 13 fact_* obligations over regenerated facts and a delivery-by-delivery differential (outcome class, raw bbolt digest, every Resolve/key-resolver answer) plus implementation-only oracles (rejected => database byte-identical, accepted => well-formed / authorised).",
    note="Trusted: Lean kernel; extractor; harness. Contracts (modelled, not verified): go-did parsing and W3C validator flags, JWK thumbprints, JWS verification, bbolt atomicity; only JsonWebKey2020 methods modelled. Authorisation is relative to the version the prevs select (forks from older versions are merged as conflicts by design, C10). Concurrent callbacks not modelled.",
    ref="5 C09"),
+ "C12": dict(
+   technique="Lean 4 theorems (soundness/completeness of matchFilter against an independent spec, rule satisfaction by structural recursion over nested requirements, Validate = re-match characterisation, totality) over a hand-written model of vcr/pe; regenerated go/ast + JSON-schema facts; schema-directed generator differential + independent reference matcher",
+   text="Proof, for all definitions/wallets/envelopes/submissions: pe_total_* (no panic), filter_sound_and_complete, match_sound (+_rules/_requirements), match_complete_or_error(_rules), build_reports_missing_credentials, forged_mapping_rejected with corollaries surplus/forged/incomplete, validate_rejects_without_complete_selection, field_values_faithful, two_capture_groups_is_error. wallet_verifier_agree holds only as _partial (hypothesis hstable); the full statement is kept as a def and its negation is proved by witness and replayed on the real code (open known finding: Validate re-matches, so a credential satisfying several descriptors can make the verifier reject the wallet's own submission). Tie: fact_* obligations (array guard, nil guards on count/min/max, max-before-take, min>max, duplicate-id rejection, schema bounds) + line differential on ~30k ops (quick) + reference-matcher oracles on the implementation's outputs. Five genuine defects were established and repaired (fix: commits), witnesses in the corpus.",
+   note="Trusted: Lean kernel; extractor; harness; Python reference matcher. Contracts (data from the harness, not modelled): regexp2 results, JSONPath on the generated subset ($, .k, ['k'], [n], trailing [*]), go-did views/Raw(), envelope parsing, JSON-schema validator. match_complete_or_error has one hypothesis (an error ignored by the enum loop did not hide a match).",
+   ref="5 C12"),
+ "C13": dict(
+   technique="Lean 4 invariants over a reachability relation (all operation sequences x fault/stop positions x method commit orders x sweep transaction orders x re-stamping) on a hand-written model of the SQL rows, change log and did:nuts publication; regenerated go/ast facts; cut-point enumeration differential against the real SqlManager + real didweb/didnuts managers",
+   text="Proof over Reach (every op sequence, every fault/stop cut, every commit order, ticks, sweeps in any order): uniform_versions, versions_consecutive(_monotone), subject_unique, all_or_nothing (any reachable world whose change records are old: sweep succeeds, log empty, confirmed versions kept, each DID lost at most its pending head, uniform per subject), stopped_operation_resolved, failed_commit_restores, retry_enabled, abandoned_keys_unpublished (+ _partial delivering its premise for commit-failure and stop-before-first-commit; the stop between did:web's and did:nuts's commit is a stated gap with the full statement kept as a def). Pre-fix negation witnesses kept (old_*). Tie: fact_* obligations (60 s threshold, tx -> range MethodManagers:Commit -> tx shape, Rollback loads the whole transaction, IsCommitted not-found => (false,nil), version numbering) + event-by-event differential with every cut of every operation in three timing shapes + implementation-only oracles. Three genuine defects established and repaired (7882721, fc00979, 4209f73).",
+   note="Trusted: Lean kernel; extractor; harness (fake network client only; everything else real). Assumptions stated in evidence: no operation in flight longer than the sweep threshold; no new operation on a subject while its change records remain (Clean premise); SQL atomicity/cascades, gorm, uuid/key freshness are contracts.",
+   ref="5 C13"),
 }
 def main():
     checks = []
